@@ -312,3 +312,29 @@ func discardAny(v any) {
 }
 
 func bridgeToGoImpl(v rc.Val) any { return bridge.ToGo(v) }
+
+// reenterLibrary performs a few unrelated signing / verification operations.
+// It is run from inside recording signers and verifiers while they still
+// hold the bytes they were handed: a key may itself use the library, and
+// concurrent callers interleave in exactly this way.
+func reenterLibrary() {
+	pad := make([]byte, 300)
+	for i := range pad {
+		pad[i] = 0xee
+	}
+	rnd := refcose.NewEntropy(nil)
+	m := &cose.Sign1Message{Headers: cose.Headers{Protected: cose.ProtectedHeader{int64(1): cose.AlgorithmEdDSA, "nested": pad}}, Payload: pad}
+	_ = m.Sign(rnd, []byte("nested"), &bridge.SpySigner{Alg: cose.AlgorithmEdDSA})
+	_ = m.Verify([]byte("nested"), &bridge.SpyVerifier{Alg: cose.AlgorithmEdDSA})
+	sm := &cose.SignMessage{Headers: cose.Headers{Protected: cose.ProtectedHeader{"nested": pad}}, Payload: pad,
+		Signatures: []*cose.Signature{{Headers: cose.Headers{Protected: cose.ProtectedHeader{int64(1): cose.AlgorithmEdDSA}}}}}
+	_ = sm.Sign(rnd, nil, &bridge.SpySigner{Alg: cose.AlgorithmEdDSA})
+	_ = sm.Verify(nil, &bridge.SpyVerifier{Alg: cose.AlgorithmEdDSA})
+	if sig, err := cose.Countersign0(rnd, &bridge.SpySigner{Alg: cose.AlgorithmEdDSA}, m, pad); err == nil {
+		_ = cose.VerifyCountersign0(&bridge.SpyVerifier{Alg: cose.AlgorithmEdDSA}, m, pad, sig)
+	}
+	cs := cose.NewCountersignature()
+	if cs.Sign(rnd, &bridge.SpySigner{Alg: cose.AlgorithmEdDSA}, sm, pad) == nil {
+		_ = cs.Verify(&bridge.SpyVerifier{Alg: cose.AlgorithmEdDSA}, sm, pad)
+	}
+}
